@@ -13,7 +13,7 @@ from vlib import translate
 RULE = ("random populations (1-5 qubits, 1-4 layers, 2-8 individuals; duplicates, relatives sharing layer prefixes, hand-built parameterless last layers, "
         "1-qubit populations, incoming stale/duplicate representative lists) x random operator sequences of length 1-12 (each selection directly preceded by a speciation) "
         "x probabilities {0, 1/2, 1, random} x roulette/tournament x 1-4 workers with forced completion orders; plus every completion permutation of 4 tasks; plus selections "
-        "violating the documented precondition; plus populations with members that are structurally different but hash-equal (merge of equal representatives); plus selections at the boundaries of the roulette arithmetic (fake evaluator modes: best value exactly 0.0 / -0.0, all values equal, negative values; zero penalties; no controlled gates); plus mutation directly after speciation; distinct = distinct spec; non-trivial = at least 2 individuals and one executed operator")
+        "violating the documented precondition; plus populations with members that are structurally different but hash-equal (merge of equal representatives); plus selections at the boundaries of the roulette arithmetic (fake evaluator modes: best value exactly 0.0 / -0.0, all values equal, negative values; zero penalties; no controlled gates); plus mutation directly after speciation; plus sparse mutation (9-70 pairwise different individuals, p = 0.08-0.3, a few indices drawn per application); distinct = distinct spec; non-trivial = at least 2 individuals and one executed operator")
 
 
 def specs_for(ctx):
@@ -28,6 +28,7 @@ def specs_for(ctx):
     # sizes just beyond 128 / 256 / 512 / 1024: pairwise different individuals, every index checked against the argument of the same call
     specs += opskit.threshold_population_specs(ctx.rng, [257] if ctx.quick else [257, 300, 513, 1025])
     specs += opskit.threshold_population_specs(ctx.rng, [] if ctx.quick else [129, 257], heavy=True)   # + stub optimiser, speciation, tournament selection
+    specs += opskit.sparse_mutation_specs(ctx.rng, ctx.n(18, 180))   # 9-70 individuals, only a few drawn per application
     specs += opskit.empty_population_specs()  # correspondence only: outside the claim (non-empty populations)
     specs += opskit.merge_specs(ctx.rng, ctx.n(12, 120))
     specs += opskit.boundary_selection_specs(ctx.rng, ctx.n(40, 400))
